@@ -122,8 +122,9 @@ func init() {
 		}
 		r := bufio.NewReaderSize(sr, a[1].Int())
 		off, err := packet.Sync(r)
-		av, _ := r.Peek(16)
-		obs := VL(VI(off), VB(av))
+		buf := make([]byte, packet.PacketSize)
+		n, _ := io.ReadFull(r, buf)
+		obs := VL(VI(off), VB(buf[:n]))
 		if err != nil {
 			return VL(VI(1), VI(int64(ioErrCode(err))), obs)
 		}
